@@ -525,7 +525,7 @@ func (g *G) genAction(fname string, k int, hi int) *Case {
 		base = big.NewInt(1)
 	}
 	bs := base.Text(16)
-	switch k % 4 {
+	switch k % 5 {
 	case 0:
 		return cs("LIFT", fname, "lift/"+fname, nil, g.mat(1+g.r.Intn(hi), 1+g.r.Intn(hi), g.elem).text(), bs)
 	case 1, 2:
